@@ -28,9 +28,8 @@ MANIFEST = {
             "identity, a refused instruction clears the one-shot state, a session equals the session of its accepted calls, a failed "
             "serialize/finalize leaves exactly the accepted prefix) by replaying every Builder session on the model and by comparing every "
             "finalize() with direct assembling of the serialized calls; the Compiler is covered by the monitor and the shadow differential only. "
-            "Open finding C14-K1 (residue): embed_const_pool = align(); bind(): a pending reference that cannot reach the aligned position is "
-            "refused after the padding (theorems carry the hypothesis excluding exactly this class; witness proved); plain bind() is atomic "
-            "with fix C14-13. "
+            "Finding C14-K1 is closed by fixes C14-13/C14-14 (bind_label and embed_const_pool validate pending fixups before they change "
+            "anything): every theorem is stated at full strength. "
             "Trusted: Lean kernel, Spec/Emitter.lean as the meaning of the property, tools/gen_c14.py (regex based, heuristic block scan), the "
             "harness snapshot (content digest of sections, labels, fixups, relocations, nodes).",
 }
@@ -542,6 +541,7 @@ def run_session_lines(h, lines):
 
 
 MAX_ABORTS = 8
+WALL_SKIPS = []     # sessions not judged because a python-side wall-clock timeout fired (never a violation)
 
 
 def run_harness(h, sessions):
@@ -556,6 +556,11 @@ def run_harness(h, sessions):
         while chunk and len(aborts) < MAX_ABORTS:
             flat = [op for si in chunk for op in sessions[si]]
             out, rc, err = run_session_lines(h, flat)
+            if rc == -9 and err == "timeout":
+                # wall-clock timeout of the python side (50 min for a chunk that needs seconds): machine load, not a verdict.
+                # A call that really does not return is stopped by the harness's own CPU-time limit and shows up as an abort.
+                WALL_SKIPS.append(len(chunk))
+                break
             if rc == 0 and len(out) == len(flat):
                 k = 0
                 for si in chunk:
@@ -627,6 +632,9 @@ def judge(h, sessions, names):
             mod_exp.append(model_expect(d, unk))
     mon, rc1, e1 = vlib.run_model("C14", mon_lines, timeout=3000)
     mod, rc2, e2 = vlib.run_model("C14", mod_lines, timeout=3000)
+    if e1 == "timeout" or e2 == "timeout":
+        res["load_skip"] = "the Lean driver did not finish within the wall-clock limit (machine load): this run judged nothing"
+        return res
     if rc1 != 0 or rc2 != 0 or len(mon) != len(mon_lines) or len(mod) != len(mod_lines):
         res["protocol"] = "driver protocol failure rc=%d/%d lines %d/%d %d/%d %s" % (rc1, rc2, len(mon), len(mon_lines), len(mod), len(mod_lines),
                                                                                  (e1 + e2)[-300:])
@@ -754,6 +762,8 @@ def run(res):
         ["new a64 asm rec 0", "emit %d 0 - 0 v11.0.3.-1 v11.1.3.-1 v11.40.3.-1" % add3, "emit %d 0 - 0 r6.1 r6.40" % cmp2],
         ["new a64 asm thr 0", "embed 01", "align 0 8", "align 1 8"],
         ["new x64 asm thr 1", "label", "@0,-,1 bind 0", "@2000,16.2,1 bind 0", "@0,-,1 bind 9", "@0,-,1 align 0 3", "@10,-,1 elabel 7 4", "@0,6.1,1 section foreign"],
+        ["new x64 asm rec 1", "label", "emit %d 10 - 0 l0" % next(f[0] for f in x86_forms if f[1] == "jmp" and f[2] == ("Label",)),
+         "embed " + "90" * 130, "cpool 0 8 1", "bind 0", "embed 90", "align 0 16"],
         ["new a64 asm rec 0", "label", "@0,-,1 bind 3", "@0,-,1 bind 0", "@0,-,1 bind 0", "@0,-,1 embed 01", "@0,-,1 align 0 8"],
         ["new a64 bld rec 0", "label", "bind 5", "bind 0", "bind 0"],
         ["new x64 asm rec 1", "label", "label", "embed 01", "bind 0", "cpool 0 8 2", "cpool 7 8 2", "cpool 1 8 2", "cpool 1 4 1"],
@@ -786,6 +796,11 @@ def run(res):
                       {"ops": ops, "stderr": tail[-2500:]}, found_input=True, key=key)
     if r["aborts"]:
         res.notes.append("%d sessions aborted and were dropped; the rest of the run was judged" % len(r["aborts"]))
+    if WALL_SKIPS:
+        res.notes.append("%d sessions were not judged: python-side wall-clock timeout (machine load), not a verdict" % sum(WALL_SKIPS))
+    if r.get("load_skip"):
+        res.notes.append(r["load_skip"])
+        return
     if r["protocol"]:
         res.violation(r["protocol"], {}, found_input=False, key="protocol")
         return
@@ -810,6 +825,7 @@ def run(res):
         if d["ret"] != 0:
             distinct.add((hdr[1], hdr[2], op))
     top = dict(sorted(kinds.items(), key=lambda kv: -kv[1])[:60])
+    watched = {k: v for k, v in kinds.items() if k.endswith(":InvalidDisplacement") and k.split("/")[2].split(":")[0] in ("bind", "cpool", "edelta")}
     res.coverage["evaluations"] = len(flat)
     res.coverage["distinct_nontrivial"] = len(distinct)
     res.coverage["rule"] = ("sessions of 20-50 public-API calls on x86/x64 (strict validation) and AArch64 Assembler/Builder/Compiler with returning/"
@@ -818,6 +834,7 @@ def run(res):
                             "label/bind/align/embed/section calls with valid and invalid arguments; non-trivial = distinct rejected call")
     res.coverage["exhaustive"] = False
     res.coverage["input_distribution"] = {"calls_by_arch/emitter/op:result (top 60)": top, "emit_accepted": accepted, "emit_rejected": rejected,
+                                          "refused_unreachable_displacement (former finding K1 and defect #5)": watched,
                                           "sessions": len(sessions)}
     res.coverage["monitored_answers"] = r["mon_n"]
     res.coverage["sessions_cut_at_defect_18_C03"] = r["tainted"]
